@@ -318,6 +318,13 @@ func (c *Ctx) watchdog() {
 		used := cpuNow() - atomic.LoadInt64(&c.curStart)
 		metrics.Read(sample)
 		heap := sample[0].Value.Uint64()
+		if time.Duration(used) <= c.CPUBudget && heap > c.HeapBudget {
+			// the metric counts garbage the collector has not reached yet (on a loaded machine
+			// it can lag far behind); only what survives a full collection counts as live
+			runtime.GC()
+			metrics.Read(sample)
+			heap = sample[0].Value.Uint64()
+		}
 		if time.Duration(used) > c.CPUBudget || heap > c.HeapBudget {
 			// re-check that the same case is still running
 			id2, _ := c.curID.Load().(string)
@@ -374,6 +381,8 @@ func Main() {
 		CPUBudget: *cpu, HeapBudget: *heap}
 	c.curID.Store("")
 	debug.SetMaxStack(256 << 20)
+	// soft limit: the collector works harder as the heap approaches two thirds of the budget
+	debug.SetMemoryLimit(int64(*heap) * 2 / 3)
 	go c.watchdog()
 	t0 := time.Now()
 	d(c)
